@@ -529,7 +529,7 @@ def module_frame_obligation(R):
 
 
 def catalogue_cases(tier):
-    names = ['sim', 'restart_run', 'my-run.v2', 'rl_it_3D', 'Checkpoints_available']
+    names = ['sim', 'restart_run', 'my-run.v2', 'rl_it_3D', 'Checkpoints_available', 'run.file_3.x', 'checkpoint.chkpt.it_4']
     layouts = list(itertools.product(('onefile', 'proc'), ('ungrouped', 'grouped')))
     patterns = [[(0, [0, 2, 4], 0)], [(0, [0, 4, 8], 0), (1, [8, 12], 1)], [(0, [6], 0), (1, [6, 9, 12], 1), (2, [12], 2)],
                 [(0, [0, 4, 8, 10], 0), (1, [10, 14], 1)],
